@@ -251,6 +251,17 @@ def build_uod(h: "EngineHarness", hw: HardwareLayerBase):
             cmd.set_complete()
         return f
 
+    def keeper(tag, v, n):
+        # argument-less command (a user can issue it as a control command) that runs n ticks and writes its output in every one
+        def f(cmd: UodCommand):
+            it = cmd.get_iteration_count()
+            log(cmd, "exec", "")
+            _out(cmd, tag, v)
+            cmd.set_progress(min(1.0, (it + 1) / n))
+            if it >= n - 1:
+                cmd.set_complete()
+        return f
+
     def flow(cmd: UodCommand, number, number_unit):
         log(cmd, "exec", "%s %s" % (number, number_unit))
         _out(cmd, "Out3", float(number))
@@ -308,6 +319,8 @@ def build_uod(h: "EngineHarness", hw: HardwareLayerBase):
     # argument-less commands a user can issue directly (execute_control_command_from_user), also while paused
     b.with_command(name="Open1", exec_fn=opener("Out1", 7.0), init_fn=mk_init, finalize_fn=mk_final, arg_parse_fn=None)
     b.with_command(name="Open2", exec_fn=opener("Out2", 8.0), init_fn=mk_init, finalize_fn=mk_final, arg_parse_fn=None)
+    b.with_command(name="Keep1", exec_fn=keeper("Out1", 6.0, 4), init_fn=mk_init, finalize_fn=mk_final, arg_parse_fn=None)
+    b.with_command(name="Keep2", exec_fn=keeper("Out2", 5.0, 3), init_fn=mk_init, finalize_fn=mk_final, arg_parse_fn=None)
     uod = b.build()
     uod.build_commands()
     return uod
